@@ -5,7 +5,7 @@ From Verif Require Import Lib.Base Mkvs.Trie Mkvs.Overlay Mkvs.Key Mkvs.Iter Mkv
 (* ------------------------------------------------------------------ *)
 (* C02: shape and root hash                                             *)
 (* ------------------------------------------------------------------ *)
-Inductive cop := CIns (k v : bytes) | CRem (k : bytes) | CCommit.
+Inductive cop := CIns (k v : bytes) | CRem (k : bytes) | CCommit | CCommitKnown (expected : bytes).
 
 (* what the harness dumps from the real tree after the last commit: for an
    internal node the raw LabelBitLength and the raw Label bytes *)
@@ -50,6 +50,11 @@ Fixpoint c02_go (tab : list (bytes * bytes)) (t : tree) (ops : list cop) : list 
   | CCommit :: r =>
       let h := root_hash (tab_H tab) t in
       let '(hs, t') := c02_go tab t r in (h :: hs, t')
+  | CCommitKnown e :: r =>
+      (* the root if it is the expected one, the empty string for ErrKnownRootMismatch *)
+      let '(t1, res) := commit_known (tab_H tab) e t in
+      let '(hs, t') := c02_go tab t1 r in
+      (match res with Some h => h | None => [] end :: hs, t')
   end.
 
 Definition run_c02 (i : c02_in) : c02_out :=
